@@ -463,10 +463,10 @@ fn main() {
     for n in 1..=nmax {
         for t in dsets(2, n, true, true, false) {
             let vals: &[usize] = if n <= 2 { &[1, 2, 3, 4, 5] } else if n <= 3 { &[1, 2, 3, 5] } else { &[1, 2, 3] };
-            let syms = if n <= 3 || th {
+            let syms = if n <= 3 {
                 all_vs(&t, vals)
             } else {
-                (0..4).map(|_| random_vs(&t, &mut rng, vals)).collect()
+                (0..if th { 6 } else { 4 }).map(|_| random_vs(&t, &mut rng, vals)).collect()
             };
             for s in &syms {
                 let (num, _) = curvature(s);
